@@ -375,7 +375,7 @@ func runC05(c *Ctx) {
 				return // the overwritten slot leaves the heap
 			}
 			nOver++
-			key := fmt.Sprintf("%s:overwrite@%s", name, sym(k))
+			key := fmt.Sprintf("%s:overwrite@%s", name, ksym(k))
 			c.sawFn(name)
 			// truncation length (if any) for the "slot beyond the end" exemption
 			var trunc ssa.Value
@@ -617,7 +617,7 @@ func runC06(c *Ctx) {
 			case *ssa.Store:
 				if k, ok := m.dataIndex(x.Addr); ok {
 					c.sawFn(name)
-					key := fmt.Sprintf("%s:slot[%s]", name, sym(k))
+					key := fmt.Sprintf("%s:slot[%s]", name, ksym(k))
 					// the notify must LOAD the element after the write: require the load instruction be after the store
 					ok1, wit := mustPassToExit(P, x, func(in2 ssa.Instruction) bool {
 						if isCut(in2, k) {
